@@ -60,7 +60,7 @@ def run_zid(eng, rng, oc, n):
             if mt != files[nm]:
                 oc.corr_mismatch.append(("page_text vs the canonical text fed to the parser", {"apage": pg}, files[nm], mt))
                 return False
-        if not all(eng.call("page_valid", pg) for pg in pages.values()):
+        if not all((eng.call("page_valid", pg) == "t") for pg in pages.values()):
             continue
         with Z.tmpdir("c05p_") as d:
             write_tree(d, files)
@@ -85,7 +85,7 @@ def run_zid(eng, rng, oc, n):
                 oc.spec_fail.append((pcase, {"lines_changed": changed}, {"lines_of_zidless_items": want_lines,
                                      "rule": "files change only on the first lines of notes without a ZID"}, None))
                 return False
-            if not eng.call("page_zid_ready", tbl, pg):
+            if not (eng.call("page_zid_ready", tbl, pg) == "t"):
                 oc.count("page_theorem_hypothesis_false")
                 continue
             want = eng.call("page_zid_text", tbl, pg)
@@ -130,7 +130,7 @@ def run_mdate(eng, rng, oc, n):
     from freezegun import freeze_time
     for _ in range(n):
         pg = _zidify(rng, apage.gen_apage(rng))
-        if not _items(pg) or not eng.call("page_valid", pg):
+        if not _items(pg) or not (eng.call("page_valid", pg) == "t"):
             continue
         pg2 = copy.deepcopy(pg)
         edited = []
@@ -144,7 +144,7 @@ def run_mdate(eng, rng, oc, n):
                 else:
                     it[3] = it[3][:-1] + [["tag", "#", "newtag%d" % k]]
                 edited.append(k)
-        if not eng.call("page_valid", pg2):
+        if not (eng.call("page_valid", pg2) == "t"):
             continue
         lines = _item_lines(pg2)
         chosen = [lines[k][0] for k in edited]
@@ -171,7 +171,7 @@ def run_mdate(eng, rng, oc, n):
                     return False
             got = W.user_files(d)["p.zo"]
         stamp = apage.short(DAY1)
-        if not eng.call("page_mdate_ready", stamp, chosen, pg2):
+        if not (eng.call("page_mdate_ready", stamp, chosen, pg2) == "t"):
             oc.count("page_theorem_hypothesis_false")
             continue
         want = eng.call("page_mdate_text", stamp, chosen, pg2)
